@@ -229,6 +229,7 @@ func (m *c11Msg) align(node *ast.MsgNode) (nameOf map[string]string, incoherent 
 	}
 	seen := map[string]string{}
 	for src, nm := range nameOf {
+		src = c11CallNameRe.ReplaceAllString(src, "{call .$1") // {call .t} and {call ns.t} are one call
 		if other, ok := seen[nm]; ok && other != src {
 			incoherent = true // two different source fragments share one name
 		}
@@ -236,6 +237,9 @@ func (m *c11Msg) align(node *ast.MsgNode) (nameOf map[string]string, incoherent 
 	}
 	return nameOf, incoherent, nil
 }
+
+// the callee of a call placeholder, relative, aliased or fully qualified
+var c11CallNameRe = regexp.MustCompile(`^\{call (?:name=")?[A-Za-z0-9_.]*\.([A-Za-z0-9_]+)"?`)
 
 type c11JSUnit struct {
 	Plural *string     `json:"plural"`
